@@ -22,6 +22,7 @@ Check @diff_enum_variants_aligned.
 Check @variant_names_distinct.
 Check @plain_payload.
 Check @struct_expansion_end_to_end.
+Check @declared_type_obeys_C01.
 Print Assumptions parse_complete.
 Print Assumptions option_is_recognised.
 Print Assumptions print_parse_roundtrip.
@@ -42,3 +43,4 @@ Print Assumptions diff_enum_variants_aligned.
 Print Assumptions variant_names_distinct.
 Print Assumptions plain_payload.
 Print Assumptions struct_expansion_end_to_end.
+Print Assumptions declared_type_obeys_C01.
